@@ -6,7 +6,7 @@
 From Coq Require Import List ZArith Bool Lia Permutation.
 From V Require Import Gen.Params Lib.Hex Wire.Varint UFrames.Model UFrames.ProofsBase UFrames.Proofs
   UFrames.ProofsFlight UFrames.ProofsValidate UFrames.ScramModel UFrames.ProofsScram UDial.Retx UDial.ProofsRetx UFrames.OnWire UFrames.ProofsOnWire
-  UPacker.Model.
+  UPacker.Model UPacker.ProofsFlight.
 Import ListNotations.
 Open Scope Z_scope.
 
@@ -42,7 +42,7 @@ Lemma flightLoop_chain fuel : forall c plens i idx off rem,
   rchain off fs /\ Forall range_pos fs /\ total_len fs <= rem.
 Proof.
   induction fuel as [|f IH]; intros c plens i idx off rem Hrem; cbn [flightLoop].
-  - simpl. repeat split; try lia; constructor.
+  - destruct (rem <=? 0); simpl; repeat split; try lia; constructor.
   - destruct (popLoop 4 off rem _) as [[frames off'] rem'] eqn:EP.
     destruct (popLoop_chain _ _ _ _ _ _ _ EP Hrem) as (Hc & Hp & Ho & Hr & Hr0).
     destruct frames as [|fr frs] eqn:EF; [simpl; repeat split; try lia; constructor|]. rewrite <- EF in *.
@@ -54,6 +54,46 @@ Proof.
     specialize (IH c (tl plens) (i + 1) (idx + 1) off' rem' Hr0). cbv zeta in IH. destruct IH as (Hc2 & Hp2 & Ht2).
     subst off'. split; [apply rchain_app; assumption|]. split; [apply Forall_app; split; assumption|].
     rewrite total_len_app. lia.
+Qed.
+
+(* every datagram of the flight has room for at least one CRYPTO byte (what C10's validated
+   budgets provide: the header plus a minimal CRYPTO frame fits the packet's maximum) *)
+Definition room (c : cfg) : Prop :=
+  forall i idx off, 0 <= off ->
+    1 <= maxDataLen off (initialBudget (hdrOf c i) off (c_maxSize c) (planFor (c_plans c) idx) (c_bk c) idx - hdrOf c i).
+
+Definition no_dgerr (dgs : list dgres) : Prop := Forall (fun d => match d with DGErr _ => False | _ => True end) dgs.
+
+(** The flight drains the stream: when no datagram fails and every datagram has room for one
+    CRYPTO byte, the frames popped over the whole flight add up to everything queued — however
+    many datagrams that takes (the fuel of C10's loop, helloLen + 1, never runs out). *)
+Lemma flightLoop_drains fuel : forall c plens i idx off rem,
+  0 <= off -> 0 <= rem -> rem < Z.of_nat fuel -> room c ->
+  no_dgerr (flightLoop fuel c plens i idx off rem) ->
+  total_len (concat (map dg_frames (flightLoop fuel c plens i idx off rem))) = rem.
+Proof.
+  induction fuel as [|f IH]; intros c plens i idx off rem Hoff Hrem Hfuel Hroom Hok; [simpl in Hfuel; lia|].
+  cbn [flightLoop] in *.
+  set (m := initialBudget (hdrOf c i) off (c_maxSize c) (planFor (c_plans c) idx) (c_bk c) idx - hdrOf c i) in *.
+  destruct (popLoop 4 off rem m) as [[frames off'] rem'] eqn:EP.
+  destruct (popLoop_chain _ _ _ _ _ _ _ EP Hrem) as (Hc & Hp & Ho & Hr & Hr0).
+  destruct frames as [|fr frs].
+  - (* nothing popped: the stream is empty, since there was room *)
+    simpl. change 4%nat with (S 3) in EP. rewrite UPacker.ProofsFlight.popLoop_S in EP.
+    destruct (Z.leb_spec rem 0); [lia|].
+    pose proof (Hroom i idx off Hoff) as Hm. fold m in Hm. cbv zeta in EP.
+    destruct (Z.leb_spec (Z.min (maxDataLen off m) rem) 0); [lia|].
+    destruct (popLoop 3 _ _ _) as [[? ?] ?]. discriminate.
+  - assert (Hpos : 0 < total_len (fr :: frs)).
+    { inversion Hp as [|? ? Hfr Hfrs]; subst. unfold range_pos in Hfr. cbn [total_len fold_right]. fold (total_len frs).
+      assert (0 <= total_len frs) by (clear -Hfrs; induction Hfrs as [|x l Hx _ IHl]; simpl; [lia|unfold range_pos in Hx; lia]). lia. }
+    match type of Hok with context [if ?b then _ else _] => destruct b end.
+    { inversion Hok as [|? ? Hd _]; contradiction. }
+    match type of Hok with context [appendInitial ?p ?h ?l ?pl ?u] => destruct (appendInitial p h l pl u) end.
+    { inversion Hok as [|? ? Hd _]; contradiction. }
+    inversion Hok as [|? ? _ Hok']; subst.
+    cbn [map concat dg_frames]. rewrite total_len_app.
+    rewrite (IH c (tl plens) (i + 1) (idx + 1) (off + total_len (fr :: frs)) (rem - total_len (fr :: frs))); try assumption; lia.
 Qed.
 
 Lemma rchain_in N l : forall o, rchain o l -> Forall range_pos l -> 0 <= o -> o + total_len l <= N ->
@@ -77,6 +117,7 @@ Lemma first_flight_on_wire sb hello c plens :
   let fss := map dg_frames (flight c (zlen hello) plens) in
   let E := total_len (concat fss) in
   rchain 0 (concat fss) /\ Forall range_pos (concat fss) /\ Forall (range_in hello) (concat fss) /\ E <= zlen hello /\
+  (no_dgerr (flight c (zlen hello) plens) -> room c -> E = zlen hello) /\
   (forall b, covers b (concat fss) <-> 0 <= b < E) /\
   (forall fs idx bs us, In fs fss -> 0 <= idx ->
      match marshal sb hello false idx fs false bs us with
@@ -86,13 +127,16 @@ Lemma first_flight_on_wire sb hello c plens :
      end).
 Proof.
   intros Hsz Hsb Hbk. cbv zeta. pose proof (zlen_nonneg hello) as Hh0.
-  assert (Efl : flight c (zlen hello) plens = flightLoop maxDatagrams c plens 0 0 0 (zlen hello))
+  assert (Efl : flight c (zlen hello) plens = flightLoop (flightFuel (zlen hello)) c plens 0 0 0 (zlen hello))
     by (unfold flight; destruct (c_bk c); try reflexivity; congruence).
   rewrite Efl.
-  destruct (flightLoop_chain maxDatagrams c plens 0 0 0 (zlen hello) Hh0) as (Hc & Hp & Ht).
-  set (fss := map dg_frames (flightLoop maxDatagrams c plens 0 0 0 (zlen hello))) in *.
+  destruct (flightLoop_chain (flightFuel (zlen hello)) c plens 0 0 0 (zlen hello) Hh0) as (Hc & Hp & Ht).
+  set (fss := map dg_frames (flightLoop (flightFuel (zlen hello)) c plens 0 0 0 (zlen hello))) in *.
   assert (Hin : Forall (range_in hello) (concat fss)) by (apply (rchain_in (zlen hello) _ 0); try assumption; lia).
   split; [assumption|]. split; [assumption|]. split; [assumption|]. split; [assumption|].
+  split.
+  { intros Hok Hroom. unfold fss.
+    apply flightLoop_drains; try assumption; try lia. unfold flightFuel. lia. }
   split; [intros b; rewrite (rchain_covers _ 0 Hc Hp b); lia|].
   intros fs idx bs us Hfs Hidx.
   assert (Hsub : forall r, In r fs -> In r (concat fss)) by (intros r Hr; apply in_concat; exists fs; auto).
@@ -245,6 +289,7 @@ Lemma flight_on_wire_complete sb hello :
      let fss := map dg_frames (flight c (zlen hello) plens) in
      let E := total_len (concat fss) in
      rchain 0 (concat fss) /\ Forall range_pos (concat fss) /\ Forall (range_in hello) (concat fss) /\ E <= zlen hello /\
+     (no_dgerr (flight c (zlen hello) plens) -> room c -> E = zlen hello) /\
      (forall b, covers b (concat fss) <-> 0 <= b < E) /\
      (forall fs idx bs us, In fs fss -> 0 <= idx ->
         match marshal sb hello false idx fs false bs us with
@@ -301,8 +346,8 @@ Proof.
       [rewrite Hz; lia|exact Em]. }
   split; [|split].
   - intros c plens Hbk.
-    destruct (first_flight_on_wire sb hello c plens Hsz Hsb Hbk) as (H1 & H2 & H3 & H4 & H5 & _).
-    cbv zeta. split; [assumption|]. split; [assumption|]. split; [assumption|]. split; [assumption|]. split; [assumption|].
+    destruct (first_flight_on_wire sb hello c plens Hsz Hsb Hbk) as (H1 & H2 & H3 & H4 & Hdr & H5 & _).
+    cbv zeta. split; [assumption|]. split; [assumption|]. split; [assumption|]. split; [assumption|]. split; [assumption|]. split; [assumption|].
     intros fs idx bs us Hfs Hidx.
     assert (Hsub : forall r, In r fs -> In r (concat (map dg_frames (flight c (zlen hello) plens)))) by (intros r Hr; apply in_concat; exists fs; auto).
     apply Herr; [assumption| |intros _]; rewrite Forall_forall in *; intros r Hr; [apply H3|apply H2]; apply Hsub, Hr.
@@ -448,3 +493,30 @@ Lemma plan_flight_examples :
   (exists wss, plan_flight (FBFrames [[FCrypto (-3) 0; FCrypto 0 2]; [FCrypto 0 5]; [FCrypto 5 (-3)]]) pl_hello [0] [] [] = Ok (wss, [], [])
                /\ length wss = 3%nat).
 Proof. split; [vm_compute; reflexivity|]. split; [vm_compute; reflexivity|]. eexists. split; [vm_compute; reflexivity|reflexivity]. Qed.
+
+(* non-vacuity of the drain clause: a nil-builder configuration with room, and a 5000-byte
+   ClientHello it sends in five datagrams without error *)
+Definition dr_cfg : cfg :=
+  {| c_dcid := 8; c_scid := 0; c_ipn := 1; c_first := 1; c_lens := []; c_single := 1; c_tokLen := 0;
+     c_bk := BPass; c_plans := []; c_udpMin := 0; c_maxSize := 1280 |}.
+
+Lemma dr_room : room dr_cfg.
+Proof.
+  intros i idx off Hoff.
+  assert (Hh : hdrOf dr_cfg i = 19) by reflexivity. rewrite Hh.
+  assert (Hb : initialBudget 19 off (c_maxSize dr_cfg) (planFor (c_plans dr_cfg) idx) (c_bk dr_cfg) idx = 1264) by reflexivity.
+  rewrite Hb. unfold maxDataLen.
+  assert (Hv : 0 <= vlen off <= 8).
+  { unfold vlen. destruct (off <=? maxVarInt1); [lia|]. destruct (off <=? maxVarInt2); [lia|].
+    destruct (off <=? maxVarInt4); [lia|]. destruct (off <=? maxVarInt8); lia. }
+  destruct (Z.gtb_spec (1 + vlen off + 1) (1264 - 19)); [lia|].
+  destruct (negb (vlen (1264 - 19 - (1 + vlen off + 1)) =? 1)); lia.
+Qed.
+
+Lemma dr_example :
+  room dr_cfg /\ no_dgerr (flight dr_cfg 5000 []) /\
+  length (flight dr_cfg 5000 []) = 5%nat /\
+  total_len (concat (map dg_frames (flight dr_cfg 5000 []))) = 5000.
+Proof.
+  split; [exact dr_room|]. split; [vm_compute; repeat constructor|]. split; vm_compute; reflexivity.
+Qed.
